@@ -1,16 +1,25 @@
 /-
   C09 — file preamble and block parameters survive write → read unchanged.
 
-  Proved so far: the preamble's map keys are those of RFC 8618 (`preamble_keys_match_rfc`);
-  the decoder accepts every value the encoder emits for the member kinds the preamble uses
-  (unsigned integers at every width, text and byte strings, booleans, array/map starts:
-  C06 + C07, combined in `uint_roundtrip`, `text_roundtrip`, `bytes_roundtrip`).
-  The struct-level composition is tied by the write→read correspondence over random preambles
-  (library reader and independent Lean reader against the value written).
+  * `struct_roundtrip`: for EVERY schema (any nesting of structs, arrays and scalar members) and every
+    value conforming to it, what the generic struct writer emits is read back by the generic struct
+    reader as exactly that value – absent optional members stay absent, present-but-empty structures
+    and lists stay present, list order and parameter-set indices are kept (induction on the reader's fuel
+    over `Model.Schema`, which models all struct `write`/`read` functions of the library);
+  * `preamble_roundtrip`: the instance for the FilePreamble → BlockParameters → StorageParameters →
+    StorageHints / CollectionParameters tree (`Model.Structs`, keys from the translator);
+  * `struct_output_wellformed`: what the writer emits is a well-formed RFC 8949 item whose map/array
+    counts equal the members/elements present (the struct-level half of C02);
+  * `preamble_keys_match_rfc`: the preamble's keys are those of RFC 8618.
+  The model is tied to the code by the C09 correspondence: on random preambles the model reader
+  (through the window model) returns what the library's reader returns, and the model writer
+  reproduces the library's bytes exactly.
 -/
 import CdnsVerif.Proofs.Keys
 import CdnsVerif.Props.C06
 import CdnsVerif.Props.C07
+import CdnsVerif.Proofs.Schema
+import CdnsVerif.Model.Structs
 
 namespace CdnsVerif.Props.C09
 open CdnsVerif.Spec.Cbor CdnsVerif.Model CdnsVerif.Model.Decoder
@@ -36,5 +45,57 @@ theorem bytes_roundtrip (bs : Bytes) (h : bs.length < 2 ^ 64) (fuel : Nat) (rest
 theorem bool_roundtrip (b : Bool) (rest : Bytes) :
     readBool.run (C06.EncOp.spec (.bool b) ++ rest) = .ok (b, rest) := by
   cases b <;> rfl
+
+
+open CdnsVerif.Model.Schema CdnsVerif.Model.Structs
+
+/-- Generic struct round trip: any schema, any conforming value, any fuel the value needs. -/
+theorem struct_roundtrip (k : Kind) (v : Val) (hc : Conforms k v) (fuel : Nat) (hf : need v ≤ fuel) (rest : Bytes) :
+    (readVal fuel k).run (writeBytes k v ++ rest) = .ok (v, rest) :=
+  (rt_all fuel).1 k v rest hc hf
+
+/-- File preamble: every conforming preamble value survives write → read unchanged. -/
+theorem preamble_roundtrip (v : Val) (hc : Conforms filePreamble v) (rest : Bytes) :
+    (readVal (need v) filePreamble).run (writeBytes filePreamble v ++ rest) = .ok (v, rest) :=
+  struct_roundtrip filePreamble v hc (need v) (Nat.le_refl _) rest
+
+/-- what a struct writer emits is one well-formed item; declared lengths = members present -/
+theorem struct_output_wellformed (k : Kind) (v : Val) (hc : Conforms k v) : (toItem k v).WF :=
+  (wfs_all (need v)).1 k v (Nat.le_refl _) hc
+
+/-! Non-vacuity: a struct with a required 8-bit member, an optional text member (absent) and a
+    present-but-empty nested struct conforms, and the round trip applies to it. -/
+def sampleKind : Kind := .struct [.mk 0 (.uint 8) true, .mk 1 .tstr false, .mk 2 (.struct [.mk 0 (.uint 64) false]) false,
+                                  .mk 3 (.arr (.uint 16)) true]
+def sampleVal : Val := .record [(0, .num 255), (2, .record []), (3, .list [.num 1, .num 65535])]
+
+theorem sample_conforms : Conforms sampleKind sampleVal := by
+  unfold sampleKind sampleVal
+  unfold Conforms
+  refine ⟨by decide, ?_, by decide, by decide⟩
+  unfold ConformsPairs
+  refine ⟨by unfold keyOk; omega, ⟨.mk 0 (.uint 8) true, rfl, ?_⟩, ?_⟩
+  · show Conforms (.uint 8) (.num 255)
+    unfold Conforms; omega
+  · unfold ConformsPairs
+    refine ⟨by unfold keyOk; omega, ⟨.mk 2 (.struct [.mk 0 (.uint 64) false]) false, rfl, ?_⟩, ?_⟩
+    · show Conforms (.struct [.mk 0 (.uint 64) false]) (.record [])
+      unfold Conforms
+      refine ⟨by decide, ?_, by decide, by decide⟩
+      unfold ConformsPairs; trivial
+    · unfold ConformsPairs
+      refine ⟨by unfold keyOk; omega, ⟨.mk 3 (.arr (.uint 16)) true, rfl, ?_⟩, ?_⟩
+      · show Conforms (.arr (.uint 16)) (.list [.num 1, .num 65535])
+        unfold Conforms
+        refine ⟨by decide, ?_⟩
+        unfold ConformsList
+        refine ⟨by unfold Conforms; omega, ?_⟩
+        unfold ConformsList
+        refine ⟨by unfold Conforms; omega, ?_⟩
+        unfold ConformsList; trivial
+      · unfold ConformsPairs; trivial
+
+example (rest : Bytes) : (readVal (need sampleVal) sampleKind).run (writeBytes sampleKind sampleVal ++ rest) = .ok (sampleVal, rest) :=
+  struct_roundtrip sampleKind sampleVal sample_conforms _ (Nat.le_refl _) rest
 
 end CdnsVerif.Props.C09
